@@ -10,6 +10,7 @@ import (
 	"io"
 	"net"
 	"os"
+	"runtime/debug"
 	"sort"
 	"strconv"
 	"strings"
@@ -103,6 +104,7 @@ type Outcome struct {
 	Sites   []string `json:"sites"`   // distinct "<level>|<message>" of the captured entries
 	Hits    []Hit    `json:"hits"`
 	Panic   string   `json:"panic,omitempty"`
+	PanicSite string `json:"panic_site,omitempty"` // the function of /repo in which a proxy goroutine panicked
 	Echoed  int      `json:"echoed"`  // error responses relayed to the client that quoted a needle
 	StepMs  []int64  `json:"step_ms,omitempty"` // diagnostics only: wall time per step and of the shutdown (last)
 }
@@ -337,6 +339,9 @@ func RunSession(sc *Script) *Outcome {
 		defer func() {
 			if p := recover(); p != nil {
 				out.Panic = fmt.Sprint(p)
+				if os.Getenv("VERIF_PANIC_STACK") != "" {
+					os.Stderr.Write(debug.Stack())
+				}
 			}
 		}()
 		if sc.Dialect == "pg" {
@@ -581,6 +586,7 @@ func runPg(sc *Script, ks *env.TKS, yaml string, opts c04.WorldOpts, out *Outcom
 	out.StepMs = append(out.StepMs, time.Since(t1).Milliseconds())
 	if p := s.Panicked(); p != nil {
 		out.Panic = fmt.Sprint(p)
+		out.PanicSite = s.PanicSite()
 	}
 }
 
@@ -693,6 +699,7 @@ func runMy(sc *Script, ks *env.TKS, yaml string, opts c04.WorldOpts, out *Outcom
 	out.StepMs = append(out.StepMs, time.Since(t1).Milliseconds())
 	if p := s.Panicked(); p != nil {
 		out.Panic = fmt.Sprint(p)
+		out.PanicSite = s.PanicSite()
 	}
 }
 
